@@ -64,7 +64,7 @@ theorem partition_index_unique (klen n i : Nat) (hn : 1 ≤ n) (hi : i < klen) :
     exact (Nat.div_eq_of_lt_le h1 h3).symm
 
 /-- what `kernel[s:e]` contains -/
-theorem pySlice_getElem? {α : Type} (l : List α) (s e j : Nat) :
+theorem pySlice_getElem_opt {α : Type} (l : List α) (s e j : Nat) :
     (pySlice l s e)[j]? = if s + j < e then l[s + j]? else none := by
   unfold pySlice
   rw [List.getElem?_drop, List.getElem?_take]
